@@ -1,11 +1,12 @@
 import OASProofs.Lemmas.Kernel
+import OASProofs.Lemmas.Rotation
 
 /-!
 # C09  Compressibility correction implements Prandtl–Glauert and is exact at Mach 0
 
-Model: `OASModel/PG.lean` (`pg_wind_rotation.py`, `pg_scale.py`).  The wiring of
-`compressible_states.py` (rotate → scale → incompressible solve at α = β = 0 → unscale → rotate back) is
-checked against the real group by the oracle of every run.
+Model: `OASModel/PG.lean` (`pg_wind_rotation.py`, `pg_scale.py`) and `OASModel/Compressible.lean`, the wiring of
+`compressible_states.py` (rotate → scale → incompressible solve at α = β = 0 with the transformed normals →
+unscale → rotate back), which the correspondence check compares with the real `AeroPoint(compressible=True)`.
 -/
 set_option linter.unusedSectionVars false
 set_option linter.unusedSimpArgs false
@@ -87,6 +88,93 @@ stretched geometry: tangency to the stretched surface is tangency with the trans
 theorem c09_normal_of_stretched (B : ℝ) (n t : V3 ℝ) :
     V3.dot (scaleGeom B t) (scaleNormal B n) = B * V3.dot t n := by
   simp [scaleGeom, scaleNormal, V3.dot]; ring
+
+/-! ### At Mach 0 and zero sideslip the compressible system *is* the incompressible one -/
+
+/-- the wind-frame rotation at zero sideslip (a rotation about the `y` axis) is a proper rotation -/
+theorem toWind_isRot (a : ℝ) : IsRot (toWind a 0) := by
+  have ha := Real.sin_sq_add_cos_sq a
+  refine ⟨?_, ?_, ?_, ?_⟩
+  · intro u v; ext <;> simp [toWind, tw, M3.mulVec] <;> ring
+  · intro c v; ext <;> simp [toWind, tw, M3.mulVec, V3.smul] <;> ring
+  · intro u v
+    simp only [toWind, tw, M3.mulVec, V3.dot, elem_cos, elem_sin, Real.cos_zero, Real.sin_zero]
+    linear_combination (u.x * v.x + u.z * v.z) * ha
+  · intro u v
+    ext <;> simp only [toWind, tw, M3.mulVec, V3.cross, elem_cos, elem_sin, Real.cos_zero, Real.sin_zero]
+    · ring
+    · linear_combination (u.z * v.x - u.x * v.z) * ha
+    · ring
+
+/-- … that commutes with the mirror image about the symmetry plane -/
+theorem toWind_mirror (a : ℝ) (v : V3 ℝ) : toWind a 0 (VLM.mirrorY v) = VLM.mirrorY (toWind a 0 v) := by
+  ext <;> simp [toWind, tw, M3.mulVec]
+
+theorem pgSurf_mach0 (a b : ℝ) : pgSurf a b (betaPG (0 : ℝ)) = VLM.mapSurf (toWind a b) := by
+  funext s
+  rw [c09_beta_mach0]
+  simp only [pgSurf, VLM.mapSurf, scaleGeom, mul_one]
+
+theorem pgNormal_mach0 (a b : ℝ) (s : VLM.Surf ℝ) (i j : ℕ) :
+    pgNormal a b (betaPG (0 : ℝ)) s i j = toWind a b (VLM.normal s i j) := by
+  rw [c09_beta_mach0]
+  simp only [pgNormal, scaleNormal, mul_one]
+
+theorem deg2rad_zero : deg2rad (0 : ℝ) = 0 := by simp [deg2rad]
+
+/-- the hypotheses of the rotation theorems hold between a flow at zero sideslip without rotation rates and
+the wind-frame flow the compressible group solves in -/
+theorem rotHyp_toWind (surfs : List (VLM.Surf ℝ)) (f : VLM.Flow ℝ) (hb : f.beta = 0) (hr : f.rotational = false)
+    (hg : ∀ s ∈ surfs, s.ground = false) : VLM.RotHyp (toWind (deg2rad f.alpha) 0) surfs f (pgFlow f) := by
+  have ha := Real.sin_sq_add_cos_sq (deg2rad f.alpha)
+  refine ⟨hg, fun s _ _ v => toWind_mirror _ v, ?_, ?_, hr, rfl, rfl⟩
+  · ext <;> simp only [VLM.wakeDir, pgFlow, deg2rad_zero, toWind, tw, M3.mulVec, elem_cos, elem_sin,
+      Real.cos_zero, Real.sin_zero]
+    · linear_combination -ha
+    · ring
+    · ring
+  · ext <;> simp only [VLM.freestreamDir, pgFlow, hb, deg2rad_zero, toWind, tw, M3.mulVec, elem_cos, elem_sin,
+      Real.cos_zero, Real.sin_zero]
+    · linear_combination (-f.v) * ha
+    · ring
+    · ring
+
+/-- **At Mach 0 and zero sideslip the compressible and the incompressible solvers coincide**: for every list of
+surfaces (any sizes, symmetric or not, no ground effect) and every flow without sideslip and rotation rates, the
+Prandtl–Glauert system has the *same* influence matrix and the *same* right-hand side as the incompressible
+system – hence the same circulations – and returns the *same* sectional forces for any circulations. -/
+theorem c09_mach0_coincides (surfs : List (VLM.Surf ℝ)) (f : VLM.Flow ℝ) (hb : f.beta = 0)
+    (hr : f.rotational = false) (hg : ∀ s ∈ surfs, s.ground = false) :
+    (∀ m n, PG.aic surfs f 0 m n = VLM.aic surfs f m n) ∧
+    (∀ m, PG.rhs surfs f 0 m = VLM.rhs surfs f m) ∧
+    (∀ gamma m, PG.secForce surfs f 0 gamma m = VLM.panelForce surfs f gamma m) := by
+  have hR := toWind_isRot (deg2rad f.alpha)
+  have H := rotHyp_toWind surfs f hb hr hg
+  have hb0 : deg2rad f.beta = 0 := by rw [hb, deg2rad_zero]
+  refine ⟨?_, ?_, ?_⟩
+  · intro m n
+    rw [← VLM.aic_rot hR surfs f (pgFlow f) H m n]
+    simp only [PG.aic, VLM.aic, hb0, pgSurf_mach0, pgNormal_mach0]
+    rw [VLM.locate_map (VLM.mapSurf _) (fun _ => rfl) (fun _ => rfl)]
+    cases VLM.locate surfs m with
+    | none => rfl
+    | some t => obtain ⟨s, i, j⟩ := t; simp only [Option.map_some, VLM.normal_rot hR]
+  · intro m
+    rw [← VLM.rhs_rot hR surfs f (pgFlow f) H m]
+    simp only [PG.rhs, VLM.rhs, hb0, pgSurf_mach0, pgNormal_mach0]
+    rw [VLM.locate_map (VLM.mapSurf _) (fun _ => rfl) (fun _ => rfl)]
+    cases VLM.locate surfs m with
+    | none => rfl
+    | some t => obtain ⟨s, i, j⟩ := t; simp only [Option.map_some, VLM.normal_rot hR]
+  · intro gamma m
+    simp only [PG.secForce, hb0, pgSurf_mach0, (c09_mach0_identity _).2.2]
+    rw [VLM.panelForce_rot hR surfs f (pgFlow f) H, c09_rot_orthogonal]
+
+/-- non-vacuity: a two-panel non-symmetric surface at 5° incidence satisfies the hypotheses -/
+example : let s : VLM.Surf ℝ := ⟨2, 3, false, false, false, fun i j => ⟨(i : ℝ), (j : ℝ) - 1, 0⟩⟩
+    let f : VLM.Flow ℝ := ⟨5, 0, 10, 1, 0, 0, 0, false⟩
+    f.beta = 0 ∧ f.rotational = false ∧ ∀ t ∈ [s], t.ground = false := by
+  simp
 
 end C09
 end OAS
